@@ -135,7 +135,9 @@ def _assign(ctx, w, target, timing):
     ncw = len(d.cw_log)
     cw_before = d.cw
     ntrace = len(d.trace)
-    reported = node.state if d.transport == "sdo" else None
+    # what the library believes the drive reports (PDO transport: the cached
+    # last report, which may lag the drive by a frame still on the wire)
+    view_before = node.state if d.transport != "sdo" else None
     t0 = ctx.now
 
     def do():
@@ -153,7 +155,7 @@ def _assign(ctx, w, target, timing):
     ctx.cover(("assign", before, target, d.transport, timing, outcome))
     if target not in COMMANDABLE:
         # judged only when the drive is not already reporting that very state
-        already = decode_statusword(d.statusword()) == target or before == target or target in trace
+        already = decode_statusword(d.statusword()) == target or before == target or target in trace or view_before == target
         if already:
             return
         if not isinstance(exc, ValueError):
@@ -166,6 +168,9 @@ def _assign(ctx, w, target, timing):
         ctx.violation("C19/operation-enabled-unasked/%s" % target.replace(" ", "-"), what)
     if exc is not None:
         cause = "%s@%s" % (type(exc).__name__, site(exc))
+        if isinstance(exc, ValueError) and site(exc).endswith("_change_state") and str(exc).endswith("to None"):
+            ctx.violation("C19/assignment-failed/state-decoded-from-several-statusword-reads",
+                          "%s raised %r after %.3f s (the state getter fetched the statusword once per table row; the drive's automatic transition landed in between, so no row matched and the state read as UNKNOWN)" % (what, exc, took / SEC))
         if isinstance(exc, ValueError) and site(exc).endswith("_change_state"):
             ctx.violation("C19/assignment-failed/state-changed-between-two-status-reads",
                           "%s raised %r after %.3f s (an automatic transition landed between the library's two reads of the state)" % (what, exc, took / SEC))
